@@ -353,7 +353,9 @@ func executeRoute(route *ast.Route, ctx *server.Context, interp *interpreter.Int
 	// query string. Without this, no interpreted route ever saw a query
 	// parameter. The raw, still-encoded query is what ExtractRawQueryParams
 	// wants: it unescapes each key and value itself.
-	requestPath := ctx.Request.URL.Path
+	// URL.Path is decoded, so a "?" in it came from %3F inside a segment; keep
+	// it from being read as the start of the query string.
+	requestPath := strings.ReplaceAll(ctx.Request.URL.Path, "?", "%3F")
 	if raw := ctx.Request.URL.RawQuery; raw != "" {
 		requestPath += "?" + raw
 	}
